@@ -9,16 +9,16 @@
 package main
 
 import (
-	"strconv"
-	"sync"
-	"sync/atomic"
 	"bytes"
 	"encoding/json"
 	"fmt"
 	"io"
 	"os"
 	"os/exec"
+	"strconv"
 	"strings"
+	"sync"
+	"sync/atomic"
 	"time"
 
 	"github.com/6tail/lunar-go/simrt"
@@ -43,6 +43,7 @@ func setCall(s string) {
 	}
 	currentCall[id%16].Store(s)
 }
+
 var oracleMs sync.Map
 
 func oracleMsOf(call string) int64 {
